@@ -2,6 +2,7 @@ import FxVerif.Proofs.C04Acct
 import FxVerif.Proofs.C04EscStep
 import FxVerif.Proofs.C04Wd
 import FxVerif.Proofs.C04Claims
+import FxVerif.Proofs.C04Ibc
 import FxVerif.Gen.C04
 /-!
 # C04 — bridge solvency: holdings + in-flight = initial + deposits − executed withdrawals; operations move only what
@@ -41,6 +42,46 @@ theorem flows_match_code :
     (∀ g c u n, calls (addBridgeFee .moduleOwned g c (U u) n) = addUnbatchedTxBridgeFee_other) := by
   refine ⟨?_, ?_, ?_, ?_, ?_, ?_, ?_, ?_, ?_, ?_, ?_, ?_, ?_, ?_, ?_, ?_, ?_, ?_⟩ <;> intros <;>
     first | rfl | (rename_i b; cases b <;> rfl)
+
+open FxVerif.Gen.C04 in
+/-- **translator tie, arguments included**: for every branch of the anchored Go functions the regenerated list of keeper
+calls WITH their module-account, account and coins / contract expressions (`Gen.C04.*_sigs`), interpreted under the
+environment that says what the Go variables of that function denote (`envBridgeToken`, `envConversion`, `envFee`,
+`envErc20`, `envIbcIn`, `envIbcOut`), IS the flow the ledger model runs — same primitives, same accounts, same
+denominations, same order.  A call that names another module account, another party or another coin variable (or an
+expression the translator does not know: `.other`) makes the interpretation differ or fail. -/
+theorem flows_interpret_code :
+    (∀ g c h n, interp (envBridgeToken .fx g c h) n depositBridgeToken_fx_sigs = some (depositBridgeToken .fx g c h n)) ∧
+    (∀ g c h n, interp (envBridgeToken .moduleOwned g c h) n depositBridgeToken_nativeCoin_sigs = some (depositBridgeToken .moduleOwned g c h n)) ∧
+    (∀ g c h n, interp (envBridgeToken .externalOwned g c h) n depositBridgeToken_nativeERC20_sigs = some (depositBridgeToken .externalOwned g c h n)) ∧
+    (∀ g c h n, interp (envBridgeToken .fx g c h) n withdrawBridgeToken_fx_sigs = some (withdrawBridgeToken .fx g c h n)) ∧
+    (∀ g c h n, interp (envBridgeToken .moduleOwned g c h) n withdrawBridgeToken_nativeCoin_sigs = some (withdrawBridgeToken .moduleOwned g c h n)) ∧
+    (∀ g c h n, interp (envBridgeToken .externalOwned g c h) n withdrawBridgeToken_nativeERC20_sigs = some (withdrawBridgeToken .externalOwned g c h n)) ∧
+    (∀ g c h n b, interp (envConversion g c h b) n conversionCoin_fx_sigs = some (conversionCoin .fx g c h n b)) ∧
+    (∀ g c h n b, interp (envConversion g c h b) n conversionCoin_nativeERC20_sigs = some (conversionCoin .externalOwned g c h n b)) ∧
+    (∀ g c h n, interp (envConversion g c h false) n conversionCoin_baseToBridge_sigs = some (conversionCoin .moduleOwned g c h n false)) ∧
+    (∀ g c h n, interp (envConversion g c h true) n conversionCoin_bridgeToBase_sigs = some (conversionCoin .moduleOwned g c h n true)) ∧
+    (∀ g s r n, interp (envErc20 g s r) n convertCoinNativeCoin_other_sigs = some (convertCoin .moduleOwned g s r n)) ∧
+    (∀ g s r n, interp (envErc20 g s r) n convertCoinNativeCoin_fx_sigs = some (convertCoin .fx g s r n)) ∧
+    (∀ g s r n, interp (envErc20 g s r) n convertCoinNativeERC20_sigs = some (convertCoin .externalOwned g s r n)) ∧
+    (∀ g s r n, interp (envErc20 g s r) n convertERC20NativeCoin_other_sigs = some (convertERC20 .moduleOwned g s r n)) ∧
+    (∀ g s r n, interp (envErc20 g s r) n convertERC20NativeCoin_fx_sigs = some (convertERC20 .fx g s r n)) ∧
+    (∀ g s r n, interp (envErc20 g s r) n convertERC20NativeToken_sigs = some (convertERC20 .externalOwned g s r n)) ∧
+    (∀ g c h n, interp (envFee .fx g c h) n addUnbatchedTxBridgeFee_origin_sigs = some (addBridgeFee .fx g c h n)) ∧
+    (∀ g c h n, interp (envFee .externalOwned g c h) n addUnbatchedTxBridgeFee_origin_sigs = some (addBridgeFee .externalOwned g c h n)) ∧
+    (∀ g c h n, interp (envFee .moduleOwned g c h) n addUnbatchedTxBridgeFee_other_sigs = some (addBridgeFee .moduleOwned g c h n)) ∧
+    (∀ g h n, interp (envIbcIn g h) n ibcCoinToBaseCoin_voucher_sigs = some (ibcCoinToBaseCoin g h n)) ∧
+    ibcCoinToBaseCoin_notVoucher_sigs = [] ∧
+    (∀ g h n, interp (envIbcOut g h) n baseCoinToIBCCoin_sigs = some (baseCoinToIBCCoin g h n)) := by
+  refine ⟨?_, ?_, ?_, ?_, ?_, ?_, ?_, ?_, ?_, ?_, ?_, ?_, ?_, ?_, ?_, ?_, ?_, ?_, ?_, ?_, ?_, ?_⟩ <;> intros <;>
+    first | rfl | (rename_i b; cases b <;> rfl)
+
+/-- the interpretation is not vacuous: a send to the erc20 module account (`types.ModuleName`) has no meaning inside the
+crosschain keeper's `ConversionCoin`, and an unknown expression stops the interpretation -/
+example : interp (envConversion 1 0 (U 0) true) 5 [⟨.sendAccToMod, .holder, .types_ModuleName, .coin⟩] = none ∧
+    interp (envConversion 1 0 (U 0) true) 5 [⟨.sendAccToMod, .holder, .k_moduleName, .other⟩] = none ∧
+    interp (envConversion 1 0 (U 0) true) 5 [⟨.sendAccToMod, .holder, .k_moduleName, .coin⟩] =
+      some [.send (.bridge 1 0) (U 0) (M 0) 5] := ⟨rfl, rfl, rfl⟩
 
 /-! ### batch life cycle: statement order of `RequestBatch` / `BuildOutgoingTxBatch`, cancel rule of
 `OutgoingTxBatchExecuted`, nonce rule of the bridge contracts — regenerated from the sources -/
@@ -482,6 +523,83 @@ example : LedgerOk { ledgerE with bal := fun a x => if a = .base 0 ∧ x = U 0 t
       | nil => rfl
       | cons b bs ih => simp only [sumL]; rw [ih (List.nodup_cons.mp hn).2]; simp [ha]
     simp [this]
+
+/-! ### IBC aliases: a bridged token whose base denomination also has an IBC voucher -/
+
+/-- value of group `g` held by non-module accounts in every representation INCLUDING the IBC voucher (vouchers parked in
+the ibc-transfer module account do not count: they back base coins) -/
+def held3 (s : State) (g : Nat) : Int := (held3Obs g).val s.L
+
+/-- **no bridge operation touches an IBC voucher**: every successful operation of the base model (all 19 kinds, every
+chain) leaves every account's voucher balance and the voucher supply of every group unchanged -/
+theorem base_ops_never_touch_vouchers (cfg : Cfg) (s s' : State) (op : Op) (h : step cfg s op = .ok s') (g : Nat) :
+    (∀ x, s'.L.bal (voucher g) x = s.L.bal (voucher g) x) ∧ s'.L.supply (voucher g) = s.L.supply (voucher g) := by
+  constructor
+  · intro x
+    have := step_voucher_frame (balObs_sound (voucher g) x) (vbal_voucherOnly g x) cfg s s' op h
+    simp only [balObs] at this; omega
+  · have := step_voucher_frame (supplyObs_sound (voucher g)) (vsup_voucherOnly g) cfg s s' op h
+    simp only [supplyObs] at this; omega
+
+/-- **conservation with IBC aliases**: for every configuration, initial ledger, amount circulating outside, every history
+of the IBC layer (all base operations, parked claims with re-entrant contracts, packets received and sent, voucher ↔
+base coin conversions on either entry point, deposits routed on to IBC) and every token group:
+`held (voucher included) + inFlight = initial + deposits + vouchers received − executed withdrawals − vouchers sent`. -/
+theorem conservation_ibc (cfg : Cfg) (L : Ledger) (e0 : Nat → Nat → Nat) (ops : List Op3) (g : Nat) :
+    held3 (runOps3 cfg (init3 (initE L e0)) ops).s2.base g + (inFlight (runOps3 cfg (init3 (initE L e0)) ops).s2.base g : Int) =
+      held3 (initE L e0) g + ((runOps3 cfg (init3 (initE L e0)) ops).s2.base.deposited g : Int)
+        + ((runOps3 cfg (init3 (initE L e0)) ops).ibcIn g : Int)
+        - ((runOps3 cfg (init3 (initE L e0)) ops).s2.base.withdrawn g : Int)
+        - ((runOps3 cfg (init3 (initE L e0)) ops).ibcOut g : Int) := by
+  have h := runOps3_measure cfg ops (init3 (initE L e0)) g
+  simp only [measure3, measureV_eq] at h
+  have h0 : inFlight (init3 (initE L e0)).s2.base g = 0 := by simp [inFlight, init3, init2, initE, chainInFlight, poolValue]
+  have h1 : (init3 (initE L e0)).s2.base.deposited g = 0 := rfl
+  have h2 : (init3 (initE L e0)).s2.base.withdrawn g = 0 := rfl
+  have h3 : (init3 (initE L e0)).ibcIn g = 0 := rfl
+  have h4 : (init3 (initE L e0)).ibcOut g = 0 := rfl
+  have h5 : (init3 (initE L e0)).s2.base = initE L e0 := rfl
+  rw [h0, h1, h2, h3, h4, h5] at h
+  simp only [held3]
+  omega
+
+/-- holdings of account `x` in every representation of group `g`, the voucher included -/
+def holdings3 (L : Ledger) (g : Nat) (x : Addr) : Int := (acct3Obs g x).val L
+
+/-- **operations move only what they say, voucher included**: a base operation changes every holder's holdings (base
+coin, bridge denominations, ERC-20 and voucher together) by exactly `stated`; an IBC operation by exactly `stated3` (a
+received packet credits its receiver, a sent one debits its sender, the conversions voucher ↔ base coin [→ ERC-20]
+move nothing for anybody) -/
+theorem ibc_ops_move_only_what_they_say (cfg : Cfg) (s s' : State) (g : Nat) (x : Addr) (hx : Holder x) :
+    (∀ op, step cfg s op = .ok s' → holdings3 s'.L g x = holdings3 s.L g x + stated s op x g) ∧
+    (∀ op, stepIbc cfg s op = .ok s' → holdings3 s'.L g x = holdings3 s.L g x + stated3 op x g) :=
+  ⟨fun op h => step_holdings3 cfg s s' op g x hx h, fun op h => stepIbc_holdings3 cfg s s' op g x hx h⟩
+
+/-- configuration of the IBC examples: 5 = module-owned on chain 1 with an IBC voucher alias -/
+def cfgI : Cfg where
+  kind := fun g => match g with | 5 => some .moduleOwned | _ => none
+  onChain := fun g c => match g, c with | 5, 1 => true | _, _ => false
+  ibcAlias := fun g => g == 5
+
+def ledgerI : Ledger where
+  bal := fun _ _ => 0
+  supply := fun _ => 0
+  owner := fun a => match a with | .erc _ => some .erc20Mod | _ => none
+
+/-- non-vacuity of `conservation_ibc` / `ibc_ops_move_only_what_they_say`, and the escrow of the voucher is per route like
+that of a bridge denomination: 10 arrive by IBC for user 0 and are converted to the base coin (7 of them on into the
+ERC-20); 6 arrive through chain 1 for user 1; user 1 cannot turn base coins into vouchers beyond what is parked in the
+transfer module account (11 > 10 refused, 4 accepted and sent out); a deposit routed on to IBC passes through.  All
+counters non-zero, the equation holds with every term. -/
+example :
+    let s := runOps3 cfgI (init3 (init ledgerI))
+      [.ibc (.recv 5 0 10), .ibc (.toBase 5 0 3 false), .ibc (.toBase 5 0 7 true), .claim (.observe 1 1 (.deposit 5 1 6 false)),
+       .claim (.exec 1 1), .ibc (.toIbc 5 1 4), .ibc (.xfer 5 1 4), .depositIbc 1 5 2 5]
+    (decide (s.ibcIn 5 = 10 ∧ s.ibcOut 5 = 9 ∧ s.s2.base.deposited 5 = 11 ∧ s.s2.base.L.bal (voucher 5) T = 1 ∧
+        s.s2.base.L.bal (.base 5) (U 0) = 3 ∧ s.s2.base.L.bal (.erc 5) (U 0) = 7 ∧ s.s2.base.L.bal (.base 5) (U 1) = 2 ∧
+        s.s2.base.L.bal (.base 5) T = 0 ∧ s.s2.base.L.supply (voucher 5) = 1) &&
+      (match step3 cfgI s (.ibc (.toIbc 5 1 2)) with | .error .insufficient => true | _ => false) &&
+      (match step3 cfgI s (.ibc (.toIbc 5 1 1)) with | .ok _ => true | _ => false)) = true := by decide
 
 /-! ### claim layer: observed claims are parked and executed through `executeClaim`, possibly re-entrantly -/
 
